@@ -27,6 +27,14 @@ class Unsupported(Exception):
     pass
 
 
+class Raised(Violation):
+    """a Python exception raised by the interpreted code's own arithmetic (ZeroDivisionError): caught by a matching `except` of the
+    interpreted code, a Violation when nothing catches it"""
+    def __init__(self, exc, msg, node=None):
+        Violation.__init__(self, 'SK1', msg, node)
+        self.exc = exc
+
+
 class Tok(object):
     __slots__ = ('kind', 'val', 'dep')
 
@@ -47,17 +55,42 @@ class Sym(Tok):
     """abstract float that is an exact polynomial over named input atoms (rational coefficients): closed under + - * and division
     by a non-zero number; cos / sin / radians of a Sym are fresh atoms named after their argument.  Decides small algebraic maps
     (an affine transform of a control point) exactly, for every value of the atoms."""
-    __slots__ = ('p',)
+    __slots__ = ('p', 'q')
 
-    def __init__(self, p):
+    def __init__(self, p, q=None):
         from .poly import Poly
         if isinstance(p, str):
             p = Poly.atom(p)
-        Tok.__init__(self, 'DEF', dep=frozenset(a for k in p.t for a, _ in k))
+        if q is not None:
+            if not p.t:
+                q = None
+            elif q.is_const():
+                p, q = p * (1 / q.const_value()), None
+            elif p == q:
+                p, q = Poly.const(1), None
+            else:
+                d = p.divexact(q)
+                if d is not None:
+                    p, q = d, None
+        Tok.__init__(self, 'DEF', dep=frozenset(a for k in p.t for a, _ in k) | (frozenset(a for k in q.t for a, _ in k) if q is not None else frozenset()))
         self.p = p
+        self.q = q          # denominator polynomial (None = 1): rational functions, no cancellation; equality by cross-multiplication
+
+    def den(self):
+        from .poly import Poly
+        return self.q if self.q is not None else Poly.const(1)
+
+    def same(self, other):
+        return self.p * other.den() == other.p * self.den()
+
+    def is_zero(self):
+        return not self.p.t
+
+    def __bool__(self):
+        return bool(self.p.t)
 
     def __repr__(self):
-        return 'Sym(%r)' % (self.p,)
+        return 'Sym(%r)' % (self.p,) if self.q is None else 'Sym((%r) / (%r))' % (self.p, self.q)
 
 
 class Mono(Tok):
@@ -354,15 +387,40 @@ class SK(object):
             num = lambda x: isinstance(x, (int, float)) and not isinstance(x, bool)
             lit = lambda x: x.val if isinstance(x, Tok) and x.kind == 'PH0' and num(x.val) else x      # a literal initial fill is its number
             a, b = lit(a), lit(b)
-            pa = a.p if isinstance(a, Sym) else (a if num(a) else None)
-            pb = b.p if isinstance(b, Sym) else (b if num(b) else None)
-            if pa is not None and pb is not None:
-                if op in (o.add, o.sub, o.mul):
-                    r = op(pa, pb)
-                    return Sym(r)
-                if op is o.truediv and num(b) and b != 0:
-                    from fractions import Fraction
-                    return Sym(pa * (1 / Fraction(b)))
+            from .poly import Poly as _P
+            sa_ = a if isinstance(a, Sym) else (Sym(_P.const(a)) if num(a) else None)
+            sb_ = b if isinstance(b, Sym) else (Sym(_P.const(b)) if num(b) else None)
+            if sa_ is not None and sb_ is not None:
+                if op in (o.add, o.sub):
+                    if sa_.q is None and sb_.q is None:
+                        return Sym(op(sa_.p, sb_.p))
+                    if sa_.q is not None and sb_.q is not None and sa_.q == sb_.q:
+                        return Sym(op(sa_.p, sb_.p), sa_.q)
+                    qa, qb = sa_.den(), sb_.den()
+                    d = qb.divexact(qa)             # common denominator: the larger one when it is a multiple of the other
+                    if d is not None:
+                        return Sym(op(sa_.p * d, sb_.p), qb)
+                    d = qa.divexact(qb)
+                    if d is not None:
+                        return Sym(op(sa_.p, sb_.p * d), qa)
+                    return Sym(op(sa_.p * qb, sb_.p * qa), qa * qb)
+                if op is o.mul:
+                    if sa_.q is None and sb_.q is None:
+                        return Sym(sa_.p * sb_.p)
+                    pa_, qa, pb_, qb = sa_.p, sa_.den(), sb_.p, sb_.den()
+                    if sb_.q is not None:
+                        d = pa_.divexact(qb)        # cancel across: (pa / qa) * (pb / qb) with qb | pa
+                        if d is not None:
+                            pa_, qb = d, _P.const(1)
+                    if sa_.q is not None:
+                        d = pb_.divexact(qa)
+                        if d is not None:
+                            pb_, qa = d, _P.const(1)
+                    return Sym(pa_ * pb_, qa * qb)
+                if op is o.truediv:
+                    if sb_.is_zero():
+                        raise Raised('ZeroDivisionError', 'division by zero', node)
+                    return Sym(sa_.p * sb_.den(), sa_.den() * sb_.p)
         if isinstance(a, Mono) and isinstance(b, Mono) and op in (o.mul, o.truediv):
             return a.combine(b, 1 if op is o.mul else -1)
         if isinstance(a, Mono) and isinstance(b, (int, float)) and not isinstance(b, bool) and b == 1 and op in (o.mul, o.truediv):
@@ -382,7 +440,7 @@ class SK(object):
         try:
             return op(a, b)
         except ZeroDivisionError:
-            raise Violation('SK1', 'integer division by zero', node)
+            raise Raised('ZeroDivisionError', 'division by zero', node)
         except TypeError as ex:
             raise Violation('SK2', 'type error in arithmetic: %s' % ex, node)
 
@@ -406,12 +464,14 @@ class SK(object):
 
     def e_UnaryOp(self, e, env):
         v = self.ev(e.operand, env)
+        if isinstance(v, Sym) and isinstance(e.op, ast.Not):
+            return v.is_zero()          # atoms are generic reals: a rational function is zero only if it is identically zero
         if isinstance(e.op, ast.Not):
             if isinstance(v, Tok):
                 raise Unsupported('truth value of abstract float')
             return not v
         if isinstance(v, Sym):
-            return Sym(-v.p) if isinstance(e.op, ast.USub) else v
+            return Sym(-v.p, v.q) if isinstance(e.op, ast.USub) else v
         if isinstance(v, Tok):
             return self.arith(lambda a, b: a, v, 0, e)
         if v is None or isinstance(v, list):
@@ -452,11 +512,11 @@ class SK(object):
                     continue
                 if (isinstance(l, Sym) or isinstance(r, Sym)) and isinstance(op, (ast.Eq, ast.NotEq)):
                     # symbolic atoms stand for generic reals: two polynomials are equal only if they are identical
-                    from .poly import _p
-                    pl = l.p if isinstance(l, Sym) else (l if isinstance(l, (int, float)) and not isinstance(l, bool) else None)
-                    pr = r.p if isinstance(r, Sym) else (r if isinstance(r, (int, float)) and not isinstance(r, bool) else None)
+                    from .poly import Poly as _P
+                    pl = l if isinstance(l, Sym) else (Sym(_P.const(l)) if isinstance(l, (int, float)) and not isinstance(l, bool) else None)
+                    pr = r if isinstance(r, Sym) else (Sym(_P.const(r)) if isinstance(r, (int, float)) and not isinstance(r, bool) else None)
                     if pl is not None and pr is not None:
-                        same = _p(pl) == _p(pr)
+                        same = pl.same(pr)
                         res = same if isinstance(op, ast.Eq) else not same
                         if not res:
                             return False
@@ -719,8 +779,18 @@ class SK(object):
         elif isinstance(n, ast.Pass):
             pass
         elif isinstance(n, ast.Try):
-            self.block(n.body, env)
-            self.block(n.orelse, env)
+            try:
+                self.block(n.body, env)
+            except Raised as r:
+                for h in n.handlers:
+                    names = [norm(x) for x in (h.type.elts if isinstance(h.type, ast.Tuple) else [h.type])] if h.type is not None else ['Exception']
+                    if any(x.split('.')[-1] in (r.exc, 'Exception', 'ArithmeticError', 'BaseException') for x in names):
+                        self.block(h.body, env)
+                        break
+                else:
+                    raise
+            else:
+                self.block(n.orelse, env)
             self.block(n.finalbody, env)
         elif isinstance(n, ast.FunctionDef):
             env[n.name] = Py(lambda sk, node, *a, _n=n, _env=env, **k: sk.call_local(_n, _env, a, k), 'local')
@@ -805,6 +875,11 @@ def _sum(sk, n, x, *start):
     for y in x:
         if y is None or isinstance(y, list):
             raise Violation('SK2', 'placeholder %r in sum()' % (y,), n)
+    if any(isinstance(y, Sym) for y in x):
+        acc = start[0] if start else 0
+        for y in x:
+            acc = sk.arith(o.add, acc, y, n)
+        return acc
     if any(isinstance(y, Tok) for y in x):
         return DEF()
     return sum(x, *start)
